@@ -218,9 +218,20 @@ func minimize(prob *Problem, method Method, settings *Settings, converger Conver
 		nTasks = 1
 	}
 	has := availFromProblem(*prob)
-	_, initErr := method.Uses(has)
+	uses, initErr := method.Uses(has)
 	if initErr != nil {
 		panic(fmt.Sprintf("optimize: specified method inconsistent with Problem: %v", initErr))
+	}
+	// Initial derivatives that the method does not use must not travel with
+	// the location: the method would never update them and they would be
+	// reported, and tested for convergence, at every later location.
+	if !uses.Grad {
+		initLoc.Gradient = nil
+		initOp &^= GradEvaluation
+	}
+	if !uses.Hess {
+		initLoc.Hessian = nil
+		initOp &^= HessEvaluation
 	}
 	newNTasks := method.Init(dim, nTasks)
 	if newNTasks > nTasks {
